@@ -1344,6 +1344,30 @@ fn main() {
     st.absorb(&local);
   });
   per_lang.push(json!({"lang": "javascript (layout grid)", "sources": rt_layouts.len(), "cuts": get(&st.rt_cuts) - before.0, "own_text_fixes_judged": get(&st.rt_cut_noop_judged) - before.1}));
+  // three captures on ONE template line (single-line and multi-line mixed, the last line of a
+  // capture indented differently from its first line): every combination, cut with <= 3 holes
+  let caps: [&str; 5] = ["x", "[\n  1,\n]", "a\n    .b()", "[\n      1,\n    ]", "{\n  k: 1 }"];
+  let mut three: Vec<String> = vec![];
+  for site in [0usize, 2] {
+    for a in caps {
+      for b in caps {
+        for c in caps {
+          let pad = " ".repeat(site);
+          let body = format!("foo({a}, {b}, {c})");
+          // continuation lines move with the site indentation
+          let body = body.replace('\n', &format!("\n{pad}"));
+          three.push(if site == 0 { format!("{body}\n") } else { format!("function g() {{\n{pad}{body}\n}}\n") });
+        }
+      }
+    }
+  }
+  let before3 = (get(&st.rt_cuts), get(&st.rt_cut_noop_judged));
+  three.par_iter().for_each(|src| {
+    let local = Stats::default();
+    roundtrip_source(&rep, &local, &samples, js, src, 3, true);
+    st.absorb(&local);
+  });
+  per_lang.push(json!({"lang": "javascript (three captures on one template line)", "sources": three.len(), "cuts": get(&st.rt_cuts) - before3.0, "own_text_fixes_judged": get(&st.rt_cut_noop_judged) - before3.1}));
   TAB_SOURCES.par_iter().for_each(|(lang, src)| {
     let local = Stats::default();
     roundtrip_source(&rep, &local, &samples, spec_by_name(lang).unwrap(), src, 2, true);
